@@ -214,6 +214,16 @@ def scenarios():
         inner = orm.select(y.p for y in X if y.p < lim)
         return ps(orm.select(x for x in X if x.p in inner)), ps(orm.select(x for x in X if x.p in (y.p for y in X if y.p > 7 - lim)))
     add('outer values inside subqueries', nested_generator, ([0, 1], [6, 7]))
+    # the loop variable of a NESTED generator has the name of a variable of the calling frame, which the enclosing query uses AFTER (and between) the nested generators:
+    # outside the nested generator the name means the caller's value again
+    def shadowed_after_nested():
+        y = 3
+        a = ps(orm.select(x for x in X if x.p in (y.p for y in X if y.p < 5) and x.p == y))
+        b = ps(orm.select(x for x in X if orm.exists(y for y in x.ys if y.v >= 0) and x.p < y))
+        c = ps(orm.select(x for x in X if x.p in (y.p for y in X if y.p < 2) or x.p == y or x.p in (y.p + 7 for y in X if y.p == 0)))
+        d = ps(orm.select(x for x in X if x.p == y and x.p in (y.p for y in X)))                      # (used before the nested generator)
+        return a, b, c, d, (py(lambda x: x.p < 5 and x.p == 3), py(lambda x: len([w for w in x.ys if w.v >= 0]) > 0 and x.p < 3), py(lambda x: x.p < 2 or x.p == 3 or x.p == 7), [3])
+    add('a nested loop variable named like an outer variable that is used after the nested generator', shadowed_after_nested, 'QUAD')
     # a function / generator object made elsewhere: its names mean what they mean where it was written, whatever the frame that hands it to the query method calls its own variables
     def foreign(kind):
         def user():
@@ -257,6 +267,9 @@ def case(cfg, values):
             if isinstance(g, _Rejected): return True
             if isinstance(w, (list, tuple)) and isinstance(g, (list, tuple)): return len(g) == len(w) and all(same(a, b) for a, b in zip(g, w))
             return g == w
+        if want == 'QUAD':                                # the scenario returns four query results and, last, the tuple of what CPython selects for the same four conditions
+            ok4 = tuple(got[:4]) == tuple(got[4]) and tuple(got2[:4]) == tuple(got2[4]) and all(got[4])
+            return [] if ok4 else [('queries: %r / %r' % (got[:4], got2[:4]), 'python: %r' % (got[4],))]
         if want == 'PAIR':                                # the scenario returns (rows of the query, rows chosen by CPython evaluating the same expression on the loaded objects)
             if not (isinstance(got, tuple) and len(got) == 2 and got[1] and len(got[1]) < 8): return [('the scenario does not discriminate', repr(got))]
             return [] if same(got[0], got[1]) and same(got2[0], got2[1]) else [('query: %r / %r' % (got[0], got2[0]), 'python: %r' % (got[1],))]
